@@ -241,3 +241,71 @@ def next_available_xs_types_are_unused_letters(na: int, a1: int, a2: int, a3: in
         assert got == free[:howMany], "the first free letters"
         assert len(set(got)) == howMany and all(c in letters and c not in used for c in got)
 
+
+# ------------------------------------------------------------------------------------------ XS ids of a perturbed state
+class CopyStandIn:
+    """stand-in for the module copy: deepcopy of a representative block / of XS settings = a fresh object with equal
+    attributes (the original is not changed)"""
+
+    @staticmethod
+    def deepcopy(x):
+        if isinstance(x, RepBlk):
+            return new(RepBlk, xsID=x.xsID, name=x.name, p=new(Params, percentBu=x.p.percentBu, xsType=x.p.xsType))
+        return new(Opts, xsID=x.xsID, blockRepresentation=x.blockRepresentation, xsIsPregenerated=x.xsIsPregenerated)
+
+
+def fuel_blocks(n, ks):
+    """block i: XS type and environment group from the two bits of ks[i] (all 4 combinations enumerated)"""
+    out = []
+    for i in range(n):
+        k = choose(ks[i], 0, 3)
+        out.append(new(MBlk, btype="fuel", name="b%d" % i, p=new(Params, xsType=TYPES[k % 2], envGroup=ENVS[k // 2])))
+    return out
+
+
+def perturbed_case(n, ks, sel, pregenB):
+    blocks = fuel_blocks(n, ks)
+    before = [b.getMicroSuffix() for b in blocks]
+    m = manager(blocks, False, pregenB, False, xsgm.AVERAGE_BLOCK_COLLECTION)
+    originals = {}
+    for x in sorted(set(before)):
+        if not (pregenB and x[0] == "B"):
+            originals[x] = new(RepBlk, xsID=x, name="AVG_" + x, p=new(Params, percentBu=1.0, xsType=x[0]))
+    chosen = [i for i in range(n) if (sel // (2 ** i)) % 2 == 1]
+    reps, origOf = m._getModifiedReprBlocks([blocks[i] for i in chosen], originals)
+    moved = [i for i in chosen if before[i] in originals]
+    for i in range(n):
+        now = blocks[i].getMicroSuffix()
+        if i in moved:
+            assert now != before[i] and now not in before, "a fresh id, not in use in the core"
+            assert now[1] == before[i][1] and origOf[now] == before[i], "same environment group; traced back to the old id"
+            assert now in reps and reps[now].p.xsType == now[0] and reps[now].name == "AVG_" + now, "its new representative block"
+            assert not same(reps[now], originals[before[i]]), "a copy"
+            assert m.cs[xsgm.CONF_CROSS_SECTION][now].xsID == now, "settings for the new id"
+        else:
+            assert now == before[i], "other blocks keep their id"
+    for i in moved:
+        for j in moved:
+            assert (blocks[i].getMicroSuffix() == blocks[j].getMicroSuffix()) == (before[i] == before[j]), "no two old ids collide"
+            assert (blocks[i].p.xsType == blocks[j].p.xsType) == (before[i][0] == before[j][0]), "one new type per old type"
+    assert sorted(reps.keys()) == sorted(set(blocks[i].getMicroSuffix() for i in moved)) and sorted(origOf.keys()) == sorted(reps.keys())
+    for x in originals:
+        assert originals[x].p.xsType == x[0] and originals[x].name == "AVG_" + x, "the original representatives are not changed"
+        assert m.cs[xsgm.CONF_CROSS_SECTION][x].xsID == x
+
+
+PERTURB = {"armi.physics.neutronics.crossSectionGroupManager:sys": "NotWindows", "armi.physics.neutronics.crossSectionGroupManager:copy": "CopyStandIn"}
+
+
+@lemma(gen={"n": [1, 2, 3], "k1": (0, 3), "k2": (0, 3), "k3": (0, 3), "sel": (1, 7)}, overrides=PERTURB)
+def perturbed_blocks_get_fresh_collision_free_xs_ids(n: int, k1: int, k2: int, k3: int, sel: int, pregenB: bool):
+    """_getModifiedReprBlocks (with getNextAvailableXsTypes, xsTypeIsPregenerated; override: copy.deepcopy) for a core
+    of 1..3 blocks (enumerated; 2 XS types x 2 environment groups each), any non-empty subset of them to be perturbed
+    (`sel`, enumerated), representative blocks existing for the XS ids of type A - and of type B unless B is
+    pre-generated: every perturbed block whose XS id has a representative moves to a NEW id = fresh type letter +
+    its old environment letter; blocks of one old id share the new id, different old ids get different new ids, no new
+    id is in use in the core; the new representative is a copy carrying the new type; the original representative,
+    the settings of the old id and all other blocks are unchanged"""
+    n = choose(n, 1, 3)
+    sel = choose(sel, 1, 2 ** n - 1)
+    perturbed_case(n, [k1, k2, k3], sel, pregenB)
